@@ -47,7 +47,7 @@ type ConnSpec struct {
 // ReloadSpec is one configuration reload (what SIGHUP triggers) placed during the traffic of a generation.
 type ReloadSpec struct {
 	AtMs    int    `json:"atMs"`    // ms after the clients were started
-	Variant string `json:"variant"` // valid | invalid | incompatible
+	Variant string `json:"variant"` // valid | invalid | incompatible (other orchestration keys) | shifted (schema fields moved)
 	Burst   int    `json:"burst,omitempty"` // real-signal mode only: this many SIGHUPs a few ms apart instead of one (signals arriving while a reload runs)
 }
 
@@ -187,6 +187,10 @@ func configText(sc Scenario, root string, servers []string, variant string) stri
 		extra = "  - type: if\n    match:\n      kind: cls\n    then:\n      - type: addFields\n        fields:\n          added: reloaded\n"
 	case "incompatible":
 		keys = "[app, source]"
+	case "shifted":
+		// valid on its own, but a new field in front moves every field the inputs and the orchestration rely on: the inputs
+		// are not restarted at a reload and keep writing to the old positions, so this must be refused
+		fields = "[front, facility, level, time, host, app, pid, source, extradata, log, kind]"
 	}
 	var b strings.Builder
 	b.WriteString("anchors: []\nschema:\n  fields: " + fields + "\n  maxFields: 14\n")
